@@ -2,47 +2,64 @@
 (* Received cheques (pkg/settlement/traffic/cheque/chequestore.go ReceiveCheque *)
 (* behind pkg/settlement/traffic/traffic.go Service.ReceiveCheque).  C30.      *)
 (*                                                                            *)
-(* Keys are small integers; key k is "the chain address of key k".  Peer p of *)
-(* RegPeers has registered key p as its chain address; the other peers are    *)
-(* unknown to the address book.  A cheque names a recipient (1 = this node,   *)
-(* 0 = somebody else), its stated issuer (a key), the key that really signed  *)
-(* it, and a cumulative payout; it arrives from a peer.                       *)
+(* Keys are small integers; key k is "the chain address of key k".  A peer     *)
+(* registers a chain address with its first handshake (Service.Handshake, the  *)
+(* init stream of a connection): `reg[p]` is the chain address registered for  *)
+(* peer p (0 = unknown to the address book).  The statement speaks of "THE     *)
+(* peer whose registered chain address is that issuer": registration is        *)
+(* one-to-one and first-wins -- a chain address that is registered to a peer   *)
+(* cannot be claimed by another overlay (that handshake is refused and the     *)
+(* claimant stays unregistered), and a registered peer keeps its address.      *)
+(* Peer p of RegPeers has registered key p before the scenario starts.         *)
+(* A cheque names a recipient (1 = this node, 0 = somebody else), its stated   *)
+(* issuer (a key), the key that really signed it, and a cumulative payout; it  *)
+(* arrives from a peer.                                                        *)
 EXTENDS Integers, Sequences, FiniteSets
 
 CONSTANTS Keys,       \* keys that can issue / sign
-          RegPeers,   \* peers with a registered chain address (peer p -> key p), subset of Keys
+          RegPeers,   \* peers registered before the scenario starts (peer p -> key p), subset of Keys
           AllPeers,   \* peers cheques can arrive from
-          Cums        \* cumulative payouts used
+          Cums,       \* cumulative payouts used
+          ClaimKeys   \* chain addresses that are presented in handshakes during the behaviour (subset of Keys)
 
 VARIABLES last,       \* Keys -> Nat: highest accepted cumulative payout per issuer
           credited,   \* Keys -> Nat: sum of the amounts credited per issuer
-          recv,       \* RegPeers -> Nat: per-peer received total (what TrafficCheques shows)
+          recv,       \* AllPeers -> Nat: per-peer received total (what TrafficCheques shows)
+          reg,        \* AllPeers -> Keys \cup {0}: chain address registered for the peer
+          claim,      \* AllPeers -> Keys \cup {0}: chain address the peer presented in its last handshake (ghost)
           res         \* the last call and its outcome
 
-vars == <<last, credited, recv, res>>
+vars == <<last, credited, recv, reg, claim, res>>
 
 Cheques == [from : AllPeers, issuer : Keys, signer : Keys, rcpt : {0, 1}, cum : Cums]
 
 (***************************************************************************)
 (* Pure definitions, shared with the generator and the judge.              *)
 (***************************************************************************)
-\* chain address registered for a peer (0 = none); peer whose chain address is key k (0 = none)
-Reg(p)    == IF p \in RegPeers THEN p ELSE 0
-PeerOf(k) == IF k \in RegPeers THEN k ELSE 0
+\* registration before the scenario; peer whose registered chain address is key k (0 = none; at most one, see OneToOne)
+Reg0      == [p \in AllPeers |-> IF p \in RegPeers THEN p ELSE 0]
+PeerOf(r, k) == IF \E p \in AllPeers : r[p] = k THEN CHOOSE p \in AllPeers : r[p] = k ELSE 0
+
+\* a handshake of peer p presenting chain address k registers it iff p has none yet and k belongs to nobody
+Registers(r, p, k) == r[p] = 0 /\ \A q \in AllPeers : r[q] # k
+RegAfter(r, p, k)  == IF Registers(r, p, k) THEN [r EXCEPT ![p] = k] ELSE r
 
 ForSelf(c)      == c.rcpt = 1
 SignedByIssuer(c) == c.signer = c.issuer
 Raises(l, c)    == c.cum > l[c.issuer]
-FromIssuersPeer(c) == Reg(c.from) # 0 /\ Reg(c.from) = c.issuer
+FromIssuersPeer(r, c) == r[c.from] # 0 /\ r[c.from] = c.issuer
 
 \* the statement: accepted only if all four hold
-Acceptable(l, c) == ForSelf(c) /\ SignedByIssuer(c) /\ Raises(l, c) /\ FromIssuersPeer(c)
+Acceptable(l, r, c) == ForSelf(c) /\ SignedByIssuer(c) /\ Raises(l, c) /\ FromIssuersPeer(r, c)
 
-\* label used by generators (first defect that applies)
-Class(l, c) == IF Reg(c.from) = 0 THEN "unregistered"
+\* label used by generators (first defect that applies); "claimed_not_registered": the sender presented the
+\* issuer's chain address in a handshake, but that address is not registered to it
+Class(l, r, cl, c) ==
+               IF r[c.from] # c.issuer /\ cl[c.from] = c.issuer /\ ForSelf(c) /\ SignedByIssuer(c) THEN "claimed_not_registered"
+               ELSE IF r[c.from] = 0 THEN "unregistered"
                ELSE IF ~ForSelf(c) THEN "wrong_recipient"
                ELSE IF ~SignedByIssuer(c) THEN "other_key"
-               ELSE IF ~FromIssuersPeer(c) THEN "foreign_issuer"
+               ELSE IF ~FromIssuersPeer(r, c) THEN "foreign_issuer"
                ELSE IF c.cum = l[c.issuer] THEN "replay"
                ELSE IF c.cum < l[c.issuer] THEN "lower"
                ELSE "valid"
@@ -52,17 +69,27 @@ Zero(S) == [x \in S |-> 0]
 (***************************************************************************)
 (* Actions                                                                 *)
 (***************************************************************************)
-Init == /\ last = Zero(Keys) /\ credited = Zero(Keys) /\ recv = Zero(RegPeers)
+Init == /\ last = Zero(Keys) /\ credited = Zero(Keys) /\ recv = Zero(AllPeers)
+        /\ reg = Reg0 /\ claim = Reg0
         /\ res = [op |-> "init"]
 
 Receive(c) ==
-  LET ok == Acceptable(last, c)
+  LET ok == Acceptable(last, reg, c)
   IN /\ last' = IF ok THEN [last EXCEPT ![c.issuer] = c.cum] ELSE last
      /\ credited' = IF ok THEN [credited EXCEPT ![c.issuer] = @ + (c.cum - last[c.issuer])] ELSE credited
-     /\ recv' = IF ok THEN [recv EXCEPT ![PeerOf(c.issuer)] = c.cum] ELSE recv
+     /\ recv' = IF ok THEN [recv EXCEPT ![PeerOf(reg, c.issuer)] = c.cum] ELSE recv
      /\ res' = [op |-> "cheque", issuer |-> c.issuer, accepted |-> ok]
+     /\ UNCHANGED <<reg, claim>>
 
-Next == \E c \in Cheques : Receive(c)
+\* registration: peer p connects and presents chain address k (no cheque)
+Handshake(p, k) ==
+  /\ reg' = RegAfter(reg, p, k)
+  /\ claim' = [claim EXCEPT ![p] = k]
+  /\ res' = [op |-> "handshake", issuer |-> k, accepted |-> FALSE, registered |-> Registers(reg, p, k)]
+  /\ UNCHANGED <<last, credited, recv>>
+
+Next == \/ \E c \in Cheques : Receive(c)
+        \/ \E p \in AllPeers, k \in ClaimKeys : Handshake(p, k)
 
 Spec == Init /\ [][Next]_vars
 
@@ -71,16 +98,23 @@ Spec == Init /\ [][Next]_vars
 (***************************************************************************)
 TypeOK == /\ last \in [Keys -> Cums \cup {0}]
           /\ credited \in [Keys -> Nat]
-          /\ recv \in [RegPeers -> Cums \cup {0}]
+          /\ recv \in [AllPeers -> Cums \cup {0}]
+          /\ reg \in [AllPeers -> Keys \cup {0}]
 
 \* replays and reorderings are never credited twice
 CreditedOnce == \A k \in Keys : credited[k] = last[k]
 
 \* credited to the right peer: a peer's received total is its own chain address' total
-RightPeer == \A p \in RegPeers : recv[p] = last[Reg(p)]
+RightPeer == \A p \in AllPeers : recv[p] = IF reg[p] = 0 THEN 0 ELSE last[reg[p]]
 
 \* nothing is ever accepted for a key that no peer registered
-OnlyRegisteredIssuers == \A k \in Keys : PeerOf(k) = 0 => last[k] = 0
+OnlyRegisteredIssuers == \A k \in Keys : PeerOf(reg, k) = 0 => last[k] = 0
+
+\* "the peer whose registered chain address is that issuer": a chain address belongs to at most one peer
+OneToOne == \A p, q \in AllPeers : (p # q /\ reg[p] # 0) => reg[p] # reg[q]
+
+\* a registration is never taken away or moved
+RegStable == [][\A p \in AllPeers : reg[p] # 0 => reg'[p] = reg[p]]_vars
 
 \* action property: a step changes the totals of at most the cheque's issuer, and only upwards
 Monotone == [][\A k \in Keys : last'[k] >= last[k] /\ (last'[k] # last[k] => res'.issuer = k /\ res'.accepted)]_vars
